@@ -399,6 +399,10 @@ def run(ctx):
     # node's own layout (any node list; loop invariant shared with C03 / C11)
     import props.C03_lines as LN
     LN.prove_cue_lines(ctx)
+    # the language-level layout the cues fall back to is the layout of the language that is written (named or first),
+    # set before the first caption is converted - whatever an earlier write left on the writer
+    import props.C14 as C14
+    P("webvtt.WebVTTWriter.write/language_layout", lambda c: C14.webvtt_write_language(c, layout_clauses=True), functions=[W.write], crosscheck=False)
     ctx.bounded("dfxp_roundtrip", "caption sets with percentage layouts at language / caption / node level (mixed), "
                 "padding arities 1-4, all alignment pairs incl. absent parts, x relativize x fit_to_screen: write DFXP, "
                 "read it back, every text node has the same effective layout (defaults start / after)",
